@@ -1,7 +1,136 @@
-//! ParabolicSAR — reference model (TODO).
+//! Parabolic SAR. Doc: 2 values — `SAR` value, `trend` value in {-1.0, 0.0, 1.0}; 1 signal — `trend` changes
+//! its value to positive: full buy; to negative: full sell; otherwise no signal.
+//! Formula (<https://en.wikipedia.org/wiki/Parabolic_SAR>):
+//!   SAR[n+1] = SAR[n] + AF * (EP - SAR[n]);
+//!   EP = highest high of the current up-trend (lowest low of the current down-trend);
+//!   AF starts at `af_step`, grows by `af_step` each time a new EP is recorded, never exceeds `af_max`;
+//!   the next SAR of an up-trend is never above this period's or the previous period's low (down-trend: never
+//!   below the two highs);
+//!   when the period's price range reaches through the SAR the trend switches sides: the first SAR of the new
+//!   trend is the last EP of the old trend, EP restarts at this period's extreme, AF restarts at `af_step`.
+//!   Invariant: in an up-trend the SAR is not above the price range, in a down-trend not below it.
 use super::*;
 
-/// returns None until the reference is written
-pub fn make(_cfg: &Cfg, _c0: &RC) -> Option<Box<dyn IndRef>> {
-	None
+#[derive(Clone)]
+pub struct Psar {
+	af_step: f64,
+	af_max: f64,
+	trend: i32,
+	/// SAR valid for the coming period
+	sar: Q,
+	/// extreme point of the current trend
+	ep: f64,
+	/// 1 + number of new extreme points recorded in the current trend
+	steps: u32,
+	prev_high: f64,
+	prev_low: f64,
+	/// a comparison of the SAR with a price could not be decided within the radius: undefined from then on
+	lost: bool,
+	prev_trend_out: f64,
+}
+
+pub fn make(cfg: &Cfg, c0: &RC) -> Option<Box<dyn IndRef>> {
+	Some(Box::new(Psar {
+		af_step: cfg.float("af_step"),
+		af_max: cfg.float("af_max"),
+		// † follows the implementation: the documentation does not say in which direction the recursion starts;
+		// the implementation starts long. On the constant prehistory a long recursion sits at its fixed point
+		// SAR = low (the SAR may not rise above the lows), EP = high, no new extremes.
+		trend: 1,
+		sar: Q::exact(c0.l),
+		ep: c0.h,
+		steps: 1,
+		prev_high: c0.h,
+		prev_low: c0.l,
+		lost: false,
+		// † follows the implementation: the documented value 0.0 of `trend` is never returned; it is the state
+		// "before the first candle", so the very first step reports a change of trend (0 -> 1)
+		prev_trend_out: 0.0,
+	}))
+}
+
+impl Psar {
+	/// is `price` strictly beyond the SAR (`below` = on the lower side)? None when the radius cannot tell
+	fn beyond(&self, price: f64, below: bool) -> Option<bool> {
+		if self.sar.r == 0.0 || !self.sar.straddles(price) {
+			Some(if below { price < self.sar.v } else { price > self.sar.v })
+		} else {
+			None
+		}
+	}
+}
+
+impl IndRef for Psar {
+	fn values(&mut self, c: &RC) -> Vec<Q> {
+		if self.lost || !self.sar.is_defined() {
+			self.lost = true;
+			return vec![Q::undefined(), Q::undefined()];
+		}
+		if self.trend > 0 {
+			// † follows the implementation: a new high of the reversing period still counts for the old trend's EP
+			if c.h > self.ep {
+				self.ep = c.h;
+				self.steps += 1;
+			}
+			// † follows the implementation: a low that only touches the SAR does not reverse the trend
+			match self.beyond(c.l, true) {
+				None => {
+					self.lost = true;
+					return vec![Q::undefined(), Q::undefined()];
+				}
+				Some(true) => {
+					self.trend = -1;
+					self.sar = Q::exact(self.ep);
+					self.ep = c.l;
+					self.steps = 1;
+				}
+				Some(false) => {}
+			}
+		} else {
+			if c.l < self.ep {
+				self.ep = c.l;
+				self.steps += 1;
+			}
+			match self.beyond(c.h, false) {
+				None => {
+					self.lost = true;
+					return vec![Q::undefined(), Q::undefined()];
+				}
+				Some(true) => {
+					self.trend = 1;
+					self.sar = Q::exact(self.ep);
+					self.ep = c.h;
+					self.steps = 1;
+				}
+				Some(false) => {}
+			}
+		}
+		let out = vec![self.sar, Q::exact(self.trend as f64)];
+
+		// SAR of the next period
+		let af = self.af_max.min(self.af_step * self.steps as f64);
+		let next = self.sar + (Q::exact(self.ep) - self.sar).scale(af);
+		self.sar = if self.trend > 0 {
+			next.min(Q::exact(c.l)).min(Q::exact(self.prev_low))
+		} else {
+			next.max(Q::exact(c.h)).max(Q::exact(self.prev_high))
+		};
+		self.prev_high = c.h;
+		self.prev_low = c.l;
+		out
+	}
+	fn signals(&mut self, _c: &RC, own: &[f64]) -> Vec<Sig> {
+		let trend = own[1];
+		let changed = trend != self.prev_trend_out;
+		self.prev_trend_out = trend;
+		let s = if changed && trend > 0.0 {
+			1
+		} else if changed && trend < 0.0 {
+			-1
+		} else {
+			0
+		};
+		vec![sig_sign(s)]
+	}
+	indref!(Psar);
 }
